@@ -420,3 +420,153 @@ func init() {
 		}
 	}
 }
+
+// Run-loop census (C17): the ownership discipline speaks of "the owner goroutine" of a node — there must be one.
+// Every `go x.run(...)` statement of the engine's packages, and how it is kept from running twice for one value:
+//
+//	0 inside a function literal handed to sync.Once.Do   1 in a constructor (new*/New*: the value is not shared yet)
+//	2 in an entry point documented to be called once per value (runStartsOncePerValue)
+//	3 in the body of `if x.CompareAndSwap(0, 1)` (an atomic test-and-set only the first caller passes)   9 none of these
+type runStart struct {
+	Type, Func string
+	Class      int
+}
+
+// ProcessSet.StartAll: the caller starts a set once (a second StartAll would also start every process a second time)
+var runStartsOncePerValue = map[string]bool{"ProcessSet.StartAll": true}
+
+func runStartCensus(c *factsCtx) (out []runStart) {
+	var dirs []string
+	filepath.Walk(c.repo, func(p string, info os.FileInfo, err error) error {
+		if err == nil && info.IsDir() {
+			rel, _ := filepath.Rel(c.repo, p)
+			if strings.HasPrefix(rel, ".git") || rel == "schema" || rel == "examples" || rel == "testdata" || rel == "model" {
+				return filepath.SkipDir
+			}
+			if rel == "." || strings.HasPrefix(rel, "pkg") {
+				dirs = append(dirs, rel)
+			}
+		}
+		return nil
+	})
+	sort.Strings(dirs)
+	for _, d := range dirs {
+		files, _ := filepath.Glob(filepath.Join(c.repo, d, "*.go"))
+		sort.Strings(files)
+		for _, p := range files {
+			if strings.HasSuffix(p, "_test.go") || verifOnly(p) {
+				continue
+			}
+			rel, _ := filepath.Rel(c.repo, p)
+			f := c.parse(rel)
+			if f == nil {
+				continue
+			}
+			for _, dcl := range f.Decls {
+				fd, ok := dcl.(*ast.FuncDecl)
+				if !ok || fd.Body == nil {
+					continue
+				}
+				fn := fd.Name.Name
+				recvT := ""
+				if fd.Recv != nil && len(fd.Recv.List) > 0 {
+					recvT = strings.TrimPrefix(nodeText(c.fset, fd.Recv.List[0].Type), "*")
+					fn = recvT + "." + fn
+				}
+				// function literals handed to a Do(...) call
+				inDo := map[*ast.FuncLit]bool{}
+				ast.Inspect(fd.Body, func(n ast.Node) bool {
+					if call, ok := n.(*ast.CallExpr); ok {
+						if se, ok := call.Fun.(*ast.SelectorExpr); ok && se.Sel.Name == "Do" {
+							for _, a := range call.Args {
+								if l, ok := a.(*ast.FuncLit); ok {
+									inDo[l] = true
+								}
+							}
+						}
+					}
+					return true
+				})
+				// go statements in the body of an `if x.CompareAndSwap(...)`
+				underCAS := map[*ast.GoStmt]bool{}
+				ast.Inspect(fd.Body, func(n ast.Node) bool {
+					if is, ok := n.(*ast.IfStmt); ok {
+						if call, ok := is.Cond.(*ast.CallExpr); ok {
+							if se, ok := call.Fun.(*ast.SelectorExpr); ok && se.Sel.Name == "CompareAndSwap" {
+								for _, st := range is.Body.List {
+									if g, ok := st.(*ast.GoStmt); ok {
+										underCAS[g] = true
+									}
+								}
+							}
+						}
+					}
+					return true
+				})
+				var lits []*ast.FuncLit
+				var walk func(n ast.Node)
+				walk = func(n ast.Node) {
+					ast.Inspect(n, func(x ast.Node) bool {
+						switch y := x.(type) {
+						case *ast.FuncLit:
+							lits = append(lits, y)
+							walk(y.Body)
+							lits = lits[:len(lits)-1]
+							return false
+						case *ast.GoStmt:
+							se, ok := y.Call.Fun.(*ast.SelectorExpr)
+							if !ok || se.Sel.Name != "run" {
+								return true
+							}
+							cls := 9
+							for _, l := range lits {
+								if inDo[l] {
+									cls = 0
+								}
+							}
+							if cls == 9 && (strings.HasPrefix(fd.Name.Name, "new") || strings.HasPrefix(fd.Name.Name, "New")) && fd.Recv == nil {
+								cls = 1
+							}
+							if cls == 9 && runStartsOncePerValue[fn] {
+								cls = 2
+							}
+							if cls == 9 && underCAS[y] {
+								cls = 3
+							}
+							out = append(out, runStart{d + "." + nodeText(c.fset, se.X), fn, cls})
+						}
+						return true
+					})
+				}
+				walk(fd.Body)
+			}
+		}
+	}
+	sort.Slice(out, func(i, j int) bool { return out[i].Func+out[i].Type < out[j].Func+out[j].Type })
+	return
+}
+
+func init() {
+	factGens = append(factGens, func(c *factsCtx) {
+		rs := runStartCensus(c)
+		if len(rs) < 10 {
+			c.fail("run-loop census: only %d `go x.run(...)` statements found", len(rs))
+			return
+		}
+		c.out.WriteString("(* every `go x.run(...)` statement of the engine: (receiver expression, function, class: 0 under sync.Once.Do / 1 in a constructor / 2 in an entry point called once per value / 3 under an atomic compare-and-swap / 9 unguarded) (harness/captured.go) *)\nDefinition run_starts : list (string * string * nat) := [\n")
+		for i, a := range rs {
+			sep := ";"
+			if i+1 == len(rs) {
+				sep = ""
+			}
+			fmt.Fprintf(&c.out, "  (%s, %s, %d)%s\n", coqStr(a.Type), coqStr(a.Func), a.Class, sep)
+		}
+		c.out.WriteString("].\n\n")
+	})
+	commands["runstarts"] = func(env *Env) {
+		c := &factsCtx{repo: env.Repo, fset: token.NewFileSet()}
+		for _, a := range runStartCensus(c) {
+			fmt.Printf("%-40s %-40s class %d\n", a.Type, a.Func, a.Class)
+		}
+	}
+}
